@@ -210,7 +210,10 @@ class Check:
         def want_more():
             if len(self.harness_errors) >= 5:
                 return False
-            if len([c for c in self.cases if c['violations']]) >= 40:
+            # (cases that only show listed known findings do not count)
+            if len([c for c in self.cases
+                    if any(match_known(v, self.known) is None
+                           for v in c['violations'])]) >= 40:
                 return False
             return (time.monotonic() < t_end or
                     len(self.cases) + len(running) < min_cases)
